@@ -10,14 +10,14 @@ PROP_MODULE = "SquidModel.Properties.C63"
 MODEL = "c63"
 GEN = []
 RULE = ("scenario = method x Via fields (own element at any position / other proxies / comments / near misses / case changes) x "
-        "Max-Forwards spellings, each sent through the rebuilt squid to a recording origin; non-trivial = own Via element present or "
+        "Max-Forwards spellings x port kind (forward / accel / accel with a CDN-Loop member naming this Squid / forward with it), each sent through the rebuilt squid to a recording origin; non-trivial = own Via element present or "
         "a Max-Forwards header present; distinct = distinct scenario lines")
 TRUSTED = ["modelled, not verified: Comm I/O, header parsing (tied separately), the 403/501/TRACE reply generation; "
            "strtoll is modelled by parseOffset (inside the correspondence)"]
-ASSUMPTIONS = ["default configuration (via on, no cache_peer), forward-proxy requests to a loopback origin"]
+ASSUMPTIONS = ["default configuration (via on, no cache_peer, default httpd_accel_surrogate_id), requests on a forward-proxy port and on an `accel allow-direct` port to a loopback origin"]
 MANIFEST = {
     "engine": "e2e",
-    "text": "partial: theorems own_via_element_always_detected / own_via_never_forwarded (any number of Via fields, any position, any surrounding text), "
+    "text": "partial: theorems own_via_element_always_detected / own_via_never_forwarded / own_via_never_forwarded_any_port (any number of Via fields, any position, any surrounding text), "
             "max_forwards_zero_answered_locally, forwarded_value_is_n_minus_1, forwarded_values_nonneg hold for the decision model "
             "(join + substring search, strtoll model, dispatch order OPTIONS-0 / TRACE-0 / loop / forward); the model is tied to the rebuilt binary by "
             "scenario correspondence (observed forward-or-local, status and forwarded Max-Forwards values must equal the model's) and a direct oracle on the observation",
@@ -31,7 +31,8 @@ STATE = {}
 class Harness:
     def __init__(self, stage):
         self.origin = rig.Origin()
-        self.squid = rig.Squid(stage, conf="cache deny all\n").start()
+        self.aport = rig.free_port()
+        self.squid = rig.Squid(stage, conf="cache deny all\nhttp_port 127.0.0.1:%d accel allow-direct\n" % self.aport).start()
         self.n = 0
         self.lock = threading.Lock()
         self.crashes = 0
@@ -47,10 +48,12 @@ class Harness:
 
     def one(self, line):
         try:
-            method, host, app, vs, ms = line.split(" ")
+            method, host, app, vs, ms, mode = (line.split(" ") + ["F"])[:6] if len(line.split(" ")) in (5, 6) else [None] * 6
             vias = [] if vs == "." else [unhx(x) for x in vs.split(",")]
             mfs = [] if ms == "." else [unhx(x) for x in ms.split(",")]
-        except ValueError:
+            if mode not in ("F", "A", "C", "D"):
+                return "bad-op"
+        except (ValueError, AttributeError, TypeError):
             return "bad-op"
         if unhx(host) != STATE["host"] or unhx(app) != STATE["app"]:
             return "bad-identity"   # the case was generated for another build's identity string
@@ -59,9 +62,15 @@ class Harness:
             sid = "q%d" % self.n
         self.origin.on(sid, lambda req: [("send", rig.simple_response(200, b"origin-body"))])
         url = self.origin.url(sid, "p")
+        accel = mode in ("A", "C")
+        if accel:     # reverse-proxy port: origin-form target, the origin is named by Host (allow-direct)
+            url = "/" + url.split("/", 3)[3]
         head = [("%s %s HTTP/1.1" % (method, url)).encode(), b"Host: 127.0.0.1:%d" % self.origin.port]
-        head += [b"Via: " + v for v in vias] + [b"Max-Forwards: " + v for v in mfs] + [b"Connection: close", b"", b""]
-        c = rig.Client(self.squid.port)
+        head += [b"Via: " + v for v in vias] + [b"Max-Forwards: " + v for v in mfs]
+        if mode in ("C", "D"):
+            head.append(b"CDN-Loop: other.example; x=1, " + STATE["host"])
+        head += [b"Connection: close", b"", b""]
+        c = rig.Client(self.aport if accel else self.squid.port)
         c.send(b"\r\n".join(head))
         r = c.response(head_request=(method == "HEAD"))
         c.close()
@@ -88,9 +97,9 @@ def build(stage):
     return Harness(stage)
 
 
-def line(method, vias, mfs):
-    return "%s %s %s %s %s" % (method, hx(STATE["host"]), hx(STATE["app"]),
-                               ",".join(hx(v) for v in vias) if vias else ".", ",".join(hx(m) for m in mfs) if mfs else ".")
+def line(method, vias, mfs, mode="F"):
+    return "%s %s %s %s %s %s" % (method, hx(STATE["host"]), hx(STATE["app"]),
+                                  ",".join(hx(v) for v in vias) if vias else ".", ",".join(hx(m) for m in mfs) if mfs else ".", mode)
 
 
 def cases(rng, tier):
@@ -127,11 +136,16 @@ def cases(rng, tier):
                 mfs[0] = str(rng.range(0, 300)).encode()
         if m == "POST":
             m = "GET"   # keep scenarios body-less
-        yield line(m, vias, mfs)
+        yield line(m, vias, mfs, rng.choice(["F", "F", "A", "A", "A", "C", "D"]))
+
+
+def _mode(l):
+    w = l.split(" ")
+    return w[5] if len(w) > 5 else "F"
 
 
 def _parts(l):
-    method, host, app, vs, ms = l.split(" ")
+    method, host, app, vs, ms = l.split(" ")[:5]
     vias = [] if vs == "." else [unhx(x) for x in vs.split(",")]
     mfs = [] if ms == "." else [unhx(x) for x in ms.split(",")]
     return method, unhx(host), unhx(app), vias, mfs
@@ -167,7 +181,9 @@ def oracle(l, impl):
     if "arrivals=" in impl:
         return "request reached the origin more than once"
     if names_this_squid(host, app, vias) and fwd:
-        return "request whose Via names this Squid was forwarded"
+        return "request whose Via names this Squid was forwarded (%s port)" % ("accel" if _mode(l) in ("A", "C") else "forward")
+    if _mode(l) == "C" and fwd:
+        return "accel-port request whose CDN-Loop names this Squid was forwarded"
     first = mfs[0] if mfs else None
     if method in ("TRACE", "OPTIONS") and first is not None and re.fullmatch(rb"0+", first) and fwd:
         return "%s with Max-Forwards: 0 was forwarded" % method
@@ -190,6 +206,6 @@ def nontrivial(l, impl, model):
 
 def tag(l, impl, model):
     method, host, app, vias, mfs = _parts(l)
-    return "%s via=%s mf=%s -> %s" % (method, "own" if names_this_squid(host, app, vias) else ("other" if vias else "none"),
+    return "%s %s via=%s mf=%s -> %s" % (_mode(l), method, "own" if names_this_squid(host, app, vias) else ("other" if vias else "none"),
                                       "none" if not mfs else ("zero" if re.fullmatch(rb"0+", mfs[0]) else "pos" if re.fullmatch(rb"[1-9][0-9]*", mfs[0]) else "odd"),
                                       impl.split(" ")[0] + ("" if impl.startswith("forward") else " " + impl.split(" ")[-1]))
